@@ -49,11 +49,28 @@ def run_ref(ctx, n, depth=4, seed_off=0, want_ast=True, isolate=True):
     lines = [G.enc(c["text"]) for c in cases]
     trees = C.run_impl(ctx, "tree", lines, tag="ref-tree")
     asts = C.run_impl(ctx, "ast", lines, tag="ref-ast") if want_ast else [None] * len(cases)
+    # the Lean model on the same cases: a mismatch is attributed to a recorded cause only if the model (which
+    # mirrors the code the findings were recorded against) shows the same tree / the same typed-AST dump
+    mtrees = masts = None
+    if getattr(ctx, "lake_ok", False):
+        ucpath, _ = G.uclass_table(ctx, [c["text"] for c in cases], C)
+        mtrees = C.run_model(ctx, ["tree", ucpath], lines, tag="ref-mtree")
+        if want_ast:
+            masts = C.run_model(ctx, "accessors", trees, tag="ref-macc")
     recs = []
     stats = {"cases": len(cases), "cst_ok": 0, "ast_ok": 0, "cst_attributed": {}, "ast_attributed": {}}
-    for c, t, a in zip(cases, trees, asts):
+    for k, (c, t, a) in enumerate(zip(cases, trees, asts)):
         r = {"case": c, "line": G.enc(c["text"]), "panic": PL.canon_panic(t), "cst": None, "ast": None,
-             "causes_cst": [], "causes_ast": []}
+             "causes_cst": [], "causes_ast": [], "model_agrees_cst": True, "model_agrees_ast": True}
+        if mtrees is not None and not r["panic"]:
+            ft, fm = PL.fields(t), (PL.fields(mtrees[k]) if not PL.canon_panic(mtrees[k]) else {})
+            r["model_agrees_cst"] = ft.get("tree") == fm.get("tree") and PL.err_positions(ft.get("errors", "")) == PL.err_positions(fm.get("errors", ""))
+            if not r["model_agrees_cst"] and len(ctx.corr_disagreements) < 20:
+                ctx.corr_disagreements.append({"layer": "I4 tree (reference program)", "case": c["text"], "impl": t[:300], "model": mtrees[k][:300]})
+        if masts is not None and not r["panic"]:
+            r["model_agrees_ast"] = a == masts[k]
+            if not r["model_agrees_ast"] and len(ctx.corr_disagreements) < 20:
+                ctx.corr_disagreements.append({"layer": "I4/I5 accessors (reference program)", "case": c["text"], "impl": a[:300], "model": masts[k][:300]})
         if r["panic"]:
             recs.append(r)
             continue
